@@ -11,7 +11,9 @@
                of each of its pages (hex nat list, "_" = empty): "2,2,2|6/2,2,2,2|8"
      cuts    : one character '0'/'1' per input ("_" = no input)
      answer  : pieces joined by '/', a piece = parts joined by ',', a part = "input.offset.rows" (decimal);
-               "=" = no piece. *)
+               "=" = no piece.
+   c09.nrefine <cfg> <ins> <layouts> <cuts> <computed>: the same when some inputs are row groups whose rows are
+     computed (merged, deduplicated, multi row groups; Merge/Nested.v); computed: one character '0'/'1' per input. *)
 open Conv
 
 let nat_of_hex s = nat_of_int (int_of_string ("0x" ^ s))
@@ -38,6 +40,9 @@ let () =
   register "c09.refine" (function
     | [c; ins; ls; cs] -> pieces (Model.c09_refine (cfg c) (lists keys ins) (layouts ls) (cuts cs))
     | _ -> failwith "c09.refine args");
+  register "c09.nrefine" (function
+    | [c; ins; ls; cs; cp] -> pieces (Model.c09_refine_nested (cfg c) (lists keys ins) (layouts ls) (cuts cs) (cuts cp))
+    | _ -> failwith "c09.nrefine args");
   register "c09.merge2" (function
     | [c; ch0; ch1; bs; in0; in1] ->
         let (outs, eof) = Model.c09_merge2 (cfg c) (nats ch0) (nats ch1) (nats bs) (keys in0) (keys in1) in
